@@ -22,6 +22,14 @@ def gen_lib(sd):
                 for p in c[key]:
                     p['scale_width'] = True      # the outline of a path is an affine image only if its width scales with it
                     p['tol'] = 1e-3 * (lib['precision'] / lib['unit']) * 10
+        if sd % 3 == 0:
+            # a third of the hierarchies: half of the cell references get a negative magnification (a half turn combined with the scale;
+            # paths under it must keep their offsets on the same side of the turned spine).  Own PRNG: the library stream is unchanged.
+            fr = random.Random(sd * 7919 + attempt)
+            for c in lib['cells']:
+                for rf in c['refs']:
+                    if rf['kind'] == 'cell' and fr.random() < 0.5:
+                        rf['mag'] = -rf['mag']
         top = len(lib['cells']) - 1
         if flat.count_instances(lib, top) <= 300 and any(r['kind'] == 'cell' for r in lib['cells'][top]['refs']):
             return lib
